@@ -55,11 +55,20 @@ def run(ctx):
     global SPEC_SLOT, SPEC_SLOT2
     feat = {"unknown": 0.05, "assert": 0.0, "wrong_kind": 0.05, "devfn_param": 0.2, "alias_subs": 0.3}
     g = L.MoveGen(ctx.rng, feat)
+    # programs all of whose lookups are of ONE kind and that have no device call (nothing else for the pass to rewrite)
+    g_one = {k: L.MoveGen(ctx.rng, dict(feat, look_kinds=(k,), devcalls=False, parallel=False, devfn_param=0.0, unknown=0.0,
+                                          wrong_kind=0.0))
+             for k in ("special", "trap", "intC", "floatC")}
     n_prog = 500 if ctx.tier == "thorough" else 60
     sp_list = specs()
     lines_spec, lines_inj, rows = [], [], []
     for pi in range(n_prog):
-        fns, argsets = g.program()
+        if pi % 4 == 3:
+            kind = ("special", "special", "trap", "intC", "floatC")[(pi // 4) % 5]
+            fns, argsets = g_one[kind].program()
+            ctx.count("single_kind_programs_" + kind)
+        else:
+            fns, argsets = g.program()
         spec = sp_list[pi % len(sp_list)]
         table = L.sx_spec_table(spec)
         src_plain = L.program_source(fns)
